@@ -31,6 +31,16 @@ func parseAddr(s string) (interface{}, error) {
 	return model.Addr(addr), nil
 }
 
+// checkNonEmpty checks there is any line (and consequently a cursor) in the
+// view. A view of an empty or unknown memory has none.
+func checkNonEmpty(m *mode) error {
+	if m.view.c == nil {
+		return fmt.Errorf("there is no memory to show")
+	}
+
+	return nil
+}
+
 func commands(m *mode) []consoleui.Command {
 	return []consoleui.Command{{
 		Keys: []string{"down", "d"},
@@ -39,6 +49,10 @@ func commands(m *mode) []consoleui.Command {
 			cmdtools.ParseNum(0, math.MaxInt),
 		},
 		Action: func(_ *consoleui.UI, args ...interface{}) error {
+			if err := checkNonEmpty(m); err != nil {
+				return err
+			}
+
 			return m.view.c.Set(m.view.c.Value() + args[0].(int))
 		},
 	}, {
@@ -48,6 +62,10 @@ func commands(m *mode) []consoleui.Command {
 			cmdtools.ParseNum(0, math.MaxInt),
 		},
 		Action: func(_ *consoleui.UI, args ...interface{}) error {
+			if err := checkNonEmpty(m); err != nil {
+				return err
+			}
+
 			return m.view.c.Set(m.view.c.Value() - args[0].(int))
 		},
 	}, {
@@ -57,6 +75,10 @@ func commands(m *mode) []consoleui.Command {
 			cmdtools.ParseNum(0, math.MaxInt),
 		},
 		Action: func(_ *consoleui.UI, args ...interface{}) error {
+			if err := checkNonEmpty(m); err != nil {
+				return err
+			}
+
 			line := args[0].(int)
 			return m.view.c.Set(line)
 		},
